@@ -144,7 +144,7 @@ def e1(unit_dir):
             return res
         new = set()
         for rj in res["rejected"]:
-            if rj.get("fn") and rj.get("has_stanza"):
+            if rj.get("fn"):
                 new.add("%s|%s|%s" % (rj["file"], rj["item"], rj["fn"]))
         new -= demote
         if not new:
